@@ -319,6 +319,9 @@ int main(int argc, char **argv) {
     int style = r.chance(12) ? 3 : (r.chance(20) ? 2 : -1);
     e2e_case(o, G, method, q, n, style, r.chance(35));
   }
+  // the kd-tree path at high bit counts (no symbol coder involved, cheap): for q >= 24 the float quantizer can return 2^q for the
+  // maximum of the range, one bit more than the quantization bits
+  if (!tie_only) for (int q = 23; q <= 30; q++) for (int k = 0; k < (thorough ? 6 : 2); k++) e2e_case(o, G, M_PC_KD, q, (int)r.range(2, 40), -1, false);
   if (thorough && !tie_only) for (int q = 23; q <= 26; q++) for (int method = 0; method < 4; method++)
     e2e_case(o, G, method, q, 12, -1, false);
 
